@@ -13,7 +13,7 @@ from . import core, findlib
 # can never create a new occurrence and never coincide (element + place) with a search atom
 NEW_ELEMS = ["S", "P", "Si", "Zr", "Cu", "Zn"]
 
-COLLINEAR = {"single", "pair", "pair_same", "collinear3", "collinear_asym"}
+COLLINEAR = {"single", "pair", "pair_same", "collinear3", "collinear_asym", "longlin3"}
 SYMMETRIC = {"pair_same", "collinear3", "bent", "ch3", "planar4"}
 
 RP_KINDS = ["keep_all+far", "keep_some+new", "all_new", "subst", "on_axis", "keep_all+far", "all_new", "nudged"]
@@ -137,15 +137,65 @@ def determined(pname, ppos, rpos, pure_translation):
     return out
 
 
+# long, asymmetric, non-collinear patterns (extent 6–8 Å): a rotation by a few hundredths of a radian moves their far atoms by
+# more than the tolerance. Registered in findlib.PATTERNS only while a structure is planted (findlib itself is not edited).
+LONG_PATTERNS = {
+    "long8": (["C", "N", "O", "C", "H"], [(0, 0, 0), (1.5, 0.25, 0), (4.0, 0, 0.5), (6.5, -0.25, 0), (8.0, 0.5, 0.25)]),
+    "long6": (["O", "C", "C", "N"], [(0, 0, 0), (1.25, 0.75, 0), (3.75, 0.5, 0.5), (6.0, 0, -0.25)]),
+    "long7": (["N", "C", "O", "F", "H"], [(7.0, 0.25, 0.5), (5.5, 0, 0), (3.0, 0.75, 0), (1.25, 0, -0.5), (0, 0, 0)]),
+    # straight N..C..O with 5 Å spacings: a group whose middle atom is pushed h off the axis keeps all three distances
+    # within h²/2L — far less than h — so only the superposition check of the search can refuse it
+    "longlin3": (["N", "C", "O"], [(0, 0, 0), (5.0, 0, 0), (10.0, 0, 0)]),
+}
+TILT_PATTERNS = ["long8", "long6", "long7"]
+
+
+def rodrigues(axis, angle):
+    a = np.array(axis, dtype=float)
+    a = a / np.linalg.norm(a)
+    K = np.array([[0, -a[2], a[1]], [a[2], 0, -a[0]], [-a[1], a[0], 0]])
+    return np.eye(3) + math.sin(angle) * K + (1 - math.cos(angle)) * K.dot(K)
+
+
 def pattern_atoms_json(els, pos, charges=None):
     return findlib.struct_json(list(els), [list(p) for p in pos], None, charges=charges)
 
 
 def make_case(rng, tier="quick", cell_kind=None, pname=None, boundary="default", replace_all=None, rp_kind=None,
-              atol=None, ncopies=None, distort=None, fmax=0.6, exact=None, hints="auto", nudge=(0.02, 0.09)):
-    """distort: None = in ~45 % of the cases use a NON-default tolerance (0.1, 0.2 or 0.01) and distort the planted copies
+              atol=None, ncopies=None, distort=None, fmax=0.6, exact=None, hints="auto", nudge=(0.02, 0.09),
+              tilt=None, flip=None, bent=None):
+    """flip: None = in ~8 % of the cases ONE unperturbed copy of a non-collinear pattern is planted whose long axis is parallel
+    or antiparallel to the pattern's axis as written up to eps (copy turned by eps, pi − eps, pi or pi + eps about an axis
+    perpendicular to the pattern's long axis, eps = 1e-9 … 1e-3): well inside every tolerance.
+    bent: None = in ~8 % of the cases the straight 10 Å pattern `longlin3` is used and the structure also holds a BENT group
+    (middle atom 6–11·atol off the axis, all pairwise distances within 0.7·atol): not an occurrence.
+    tilt: None = in ~12 % of the cases the copies are planted in the pattern's own orientation and then TILTED by a small
+    rotation (angle from 1e-3 rad to 1.3·atol rad, random axis, about the copy's first atom), preferably with a long
+    pattern (LONG_PATTERNS), so that angle × lever arm exceeds the tolerance although the angle (in rad) is below atol (in Å).
+    distort: None = in ~45 % of the cases use a NON-default tolerance (0.1, 0.2 or 0.01) and distort the planted copies
     by up to fmax·atol (one atom by f·atol, or every atom by f·atol/2, f in [0.25, fmax]); for atol = 0.01 some copies
     are distorted BEYOND the tolerance (2–4·atol: not occurrences at that tolerance, but within the default 0.05)"""
+    free = distort is None and exact is None and tilt is None and atol is None and ncopies is None
+    if bent is None:
+        bent = free and flip is None and pname is None and rng.random() < 0.08
+    if bent:
+        pname, distort, exact, tilt, flip = "longlin3", False, False, False, False
+        atol = atol if atol is not None else rng.choice([0.05, 0.05, 0.02])
+    if flip is None:
+        flip = free and not bent and rng.random() < 0.08
+    if flip:
+        distort, exact, tilt = False, False, False
+        if pname is None or pname.split("@")[0] in COLLINEAR or len((LONG_PATTERNS.get(pname) or findlib.PATTERNS[pname])[0]) < 3:
+            pname = rng.choice(["asym4", "asym5", "chiral", "halo", "siloxy", "long8", "long6", "asym4@y", "asym4@z"])
+            if pname not in findlib.PATTERNS and pname not in LONG_PATTERNS:
+                pname = "asym4"
+        ncopies = 1
+    if tilt is None:
+        tilt = distort is None and exact is None and rng.random() < 0.12
+    if tilt:
+        distort, exact = False, False
+        if pname is None or (pname not in LONG_PATTERNS and len(findlib.PATTERNS[pname][0]) < 3) or rng.random() < 0.5:
+            pname = rng.choice(TILT_PATTERNS)
     pname = pname or rng.choice(list(findlib.PATTERNS))
     cell_kind = cell_kind or rng.choice(["ortho", "tri+", "tri-", "rot", "tri+", "tri-"])
     if boundary == "default":
@@ -166,10 +216,105 @@ def make_case(rng, tier="quick", cell_kind=None, pname=None, boundary="default",
     if distort and atol is None:
         atol = rng.choice([0.1, 0.2, 0.2, 0.01])
     atol = atol if atol is not None else rng.choice([0.05, 0.05, 0.02, 0.1])
-    case = findlib.planted_structure(rng, pname=pname, cell_kind=cell_kind, atol=atol, boundary=boundary,
-                                     ncopies=ncopies if ncopies is not None else rng.randint(1, 3),
-                                     decoys=rng.random() < 0.5, **({"pose": "axis180", "perturb": False} if exact else {}))
+    extra = {"pose": "axis180", "perturb": False} if exact else ({"pose": "identity"} if tilt else {})
+    if flip:
+        extra = {"pose": "identity", "perturb": False}
+    registered = pname in LONG_PATTERNS and pname not in findlib.PATTERNS
+    if registered:
+        findlib.PATTERNS[pname] = LONG_PATTERNS[pname]
+    try:
+        case = findlib.planted_structure(rng, pname=pname, cell_kind=cell_kind, atol=atol, boundary=boundary,
+                                         ncopies=ncopies if ncopies is not None else rng.randint(1, 3),
+                                         decoys=(rng.random() < 0.5) and not flip, **extra)
+    finally:
+        if registered:
+            del findlib.PATTERNS[pname]
     n = len(case["elems"])
+    tilt_info = []
+    if tilt and case["planted"]:
+        cellf = np.array(case["cell"], dtype=float)
+        cinv = np.linalg.inv(cellf)
+        pos = np.array(case["pos"], dtype=float)
+        pp = np.array(case["pattern"]["pos"], dtype=float)
+        for grp in case["planted"]:
+            u = rng.choice([rng.uniform(0.5, 0.98), rng.uniform(0.5, 0.98), rng.uniform(0.7, 0.98), rng.uniform(1.0, 1.3), None])
+            ang = rng.uniform(1e-3, 0.5 * atol) if u is None else u * atol
+            Rt = rodrigues([rng.uniform(-1, 1) for _ in range(3)] if rng.random() < 0.7 else rng.choice([(1, 0, 0), (0, 1, 0), (0, 0, 1)]), ang)
+            x0 = pos[grp[0]]
+            for k, i in enumerate(grp):
+                # un-wrap atom k next to atom 0 (the copy has the pattern's orientation), turn it about atom 0, wrap again
+                ideal = x0 + (pp[k] - pp[0])
+                shift = np.round((ideal - pos[i]).dot(cinv))
+                xk = pos[i] + shift.dot(cellf)
+                pos[i] = x0 + Rt.dot(xk - x0)
+            tilt_info.append(round(ang / atol, 2))
+        fr = pos.dot(cinv) % 1.0
+        fr[fr >= 1.0] = 0.0
+        case["pos"] = [[float(x) for x in row] for row in fr.dot(cellf)]
+    flip_info = None
+    if flip and case["planted"]:
+        cellf = np.array(case["cell"], dtype=float)
+        cinv = np.linalg.inv(cellf)
+        pos = np.array(case["pos"], dtype=float)
+        pp = np.array(case["pattern"]["pos"], dtype=float)
+        # the pattern's long axis: its two farthest atoms
+        dd = [(float(np.linalg.norm(pp[i] - pp[j])), i, j) for i in range(len(pp)) for j in range(len(pp))]
+        _, ia, ib = max(dd)
+        uax = (pp[ib] - pp[ia]) / np.linalg.norm(pp[ib] - pp[ia])
+        w = np.cross(uax, rng.choice([(1, 0, 0), (0, 1, 0), (0, 0, 1), tuple(rng.uniform(-1, 1) for _ in range(3))]))
+        if np.linalg.norm(w) < 1e-3:
+            w = np.cross(uax, (0.3, 0.5, 0.8))
+        eps = 10 ** rng.uniform(-9, -3)
+        kind = rng.choice(["pi-eps", "pi-eps", "pi-eps", "pi+eps", "eps", "pi"])
+        ang = {"pi-eps": math.pi - eps, "pi+eps": math.pi + eps, "eps": eps, "pi": math.pi}[kind]
+        Rt = rodrigues(w, ang)
+        grp = case["planted"][0]
+        x0 = pos[grp[0]].copy()
+        for k, i in enumerate(grp):
+            ideal = x0 + (pp[k] - pp[0])
+            shift = np.round((ideal - pos[i]).dot(cinv))
+            xk = pos[i] + shift.dot(cellf)
+            pos[i] = x0 + Rt.dot(xk - x0)
+        fr = pos.dot(cinv) % 1.0
+        fr[fr >= 1.0] = 0.0
+        case["pos"] = [[float(x) for x in row] for row in fr.dot(cellf)]
+        flip_info = "%s(eps=%.1e)" % (kind, eps)
+    bent_info = None
+    if bent:
+        cellf = np.array(case["cell"], dtype=float)
+        cinv = np.linalg.inv(cellf)
+        pos = [np.array(x, dtype=float) for x in case["pos"]]
+        pp = np.array(case["pattern"]["pos"], dtype=float)
+        L = float(np.linalg.norm(pp[1] - pp[0]))
+        h = min(rng.uniform(8.0, 11.0) * atol, rng.uniform(0.75, 0.95) * math.sqrt(2 * L * 0.7 * atol))
+        for attempt in range(200):
+            Rr = np.array([[float(v) for v in row] for row in findlib.rotmat(findlib.rat_quat(rng))])
+            origin = np.array([rng.random() for _ in range(3)]).dot(cellf)
+            perp = np.cross(Rr.dot(pp[2] - pp[0]), [rng.uniform(-1, 1) for _ in range(3)])
+            if np.linalg.norm(perp) < 1e-3:
+                continue
+            perp = perp / np.linalg.norm(perp)
+            pts = [origin + Rr.dot(pp[k] - pp[0]) + (h * perp if k == 1 else 0) for k in range(3)]
+            ok = True
+            for q in pts:
+                for x in pos:
+                    f = (q - x).dot(cinv)
+                    f -= np.round(f)
+                    if np.linalg.norm(f.dot(cellf)) < 2.0:
+                        ok = False
+                        break
+                if not ok:
+                    break
+            if ok:
+                for k, q in enumerate(pts):
+                    fq = q.dot(cinv) % 1.0
+                    fq[fq >= 1.0] = 0.0
+                    pos.append(fq.dot(cellf))
+                    case["elems"].append(case["pattern"]["elems"][k])
+                case["pos"] = [[float(v) for v in x] for x in pos]
+                bent_info = round(h / atol, 1)
+                break
+        n = len(case["elems"])
     dist_info = "none"
     if distort and case["planted"]:
         cellf = np.array(case["cell"], dtype=float)
@@ -224,7 +369,8 @@ def make_case(rng, tier="quick", cell_kind=None, pname=None, boundary="default",
             "info": {"cell": cell_kind, "pattern": pname, "boundary": str(boundary), "rp": rp_kind,
                      "copies": len(case["planted"]), "decoys": case["info"]["decoys"], "atol": atol,
                      "distorted": dist_info,
-                     "exact180": bool(exact)}}
+                     "exact180": bool(exact), "tilt_over_atol": tilt_info, "flip": flip_info,
+                     "bent_decoy_h_over_atol": bent_info}}
 
 
 def rand_motion(rng, pure_translation=False):
